@@ -72,6 +72,7 @@ fn one_mode(
     do_gc: bool,
     names: bool,
     producers: bool,
+    dwarf: bool,
     edit_bytes: &[u8],
     n_edits: usize,
     out: &mut CaseOut,
@@ -80,6 +81,7 @@ fn one_mode(
     let cfg = wal::Cfg {
         names,
         producers,
+        dwarf,
         ..wal::Cfg::plain()
     };
     let mut m = match wal::parse(bytes, &cfg.to_config())? {
@@ -170,7 +172,20 @@ pub fn check(_ctx: &Ctx, input: &Input) -> CaseResult {
             let n_edits = ((mode >> 3) & 7) as usize;
             let n_edits = if n_edits > 5 { 0 } else { n_edits };
             out.label(if do_gc { "mode:gc" } else { "mode:plain" });
-            one_mode(&p.bytes, mode >> 6, do_gc, names, producers, &edit_bytes, n_edits, &mut out, &p.origin)?;
+            // every 4th case carries synthesized well-formed DWARF (LLVM-like subset)
+            // and is emitted with DWARF generation on
+            let with_dwarf = edit_bytes.first().map(|b| b % 4 == 0).unwrap_or(false);
+            let mut module = p.bytes.clone();
+            let mut dwarf_on = false;
+            if with_dwarf {
+                let mut dch = Ch::new(&edit_bytes);
+                if let Some(w) = crate::dwarf::attach_dwarf_simple(&module, &mut dch) {
+                    module = w;
+                    dwarf_on = true;
+                    out.label("mode:dwarf-generation-on");
+                }
+            }
+            one_mode(&module, mode >> 6, do_gc, names, producers, dwarf_on, &edit_bytes, n_edits, &mut out, &p.origin)?;
             if out.nontrivial {
                 out.sample = Some(json!({"origin": p.origin, "bytes": p.bytes.len(), "gc": do_gc, "edits": n_edits,
                     "labels": out.labels.iter().filter(|l| l.starts_with("edit:")).collect::<Vec<_>>()}));
@@ -192,7 +207,7 @@ pub fn check(_ctx: &Ctx, input: &Input) -> CaseResult {
                             if order == 2 && (!do_gc || n_edits == 0) {
                                 continue;
                             }
-                            one_mode(bytes, order, do_gc, names, producers, &eb, n_edits, &mut out, origin)?;
+                            one_mode(bytes, order, do_gc, names, producers, false, &eb, n_edits, &mut out, origin)?;
                         }
                     }
                 }
